@@ -137,7 +137,10 @@ def oracle(ctx):
                 want.append((('D' if kind == 'container' else 'd') + cn[:2], tag))
             if tags != want:
                 fails.append(f'{name}: drop-ins merged {tags}, expected (first of each name over all search dirs, in name order) {want}')
-        if a['load_errors'] != sum(e['load_errors'] for e in exp.values()):
+        # (how often a file that cannot be loaded is *reported* when its directory is reached twice — a search directory below another one — is
+        #  not a matter of this property: it depends on whether a loadable copy was seen in between; the count is compared for disjoint roots)
+        nested = any(r1 != r2 and r1.startswith(r2 + '/') for r1 in roots for r2 in roots)
+        if not nested and a['load_errors'] != sum(e['load_errors'] for e in exp.values()):
             fails.append(f'load errors {a["load_errors"]} != {sum(e["load_errors"] for e in exp.values())}')
         if a['dropin_errors'] != sum(1 for e in exp.values() if e['dropin_error'] and e['winner']):
             fails.append(f'drop-in errors {a["dropin_errors"]} != {sum(1 for e in exp.values() if e["dropin_error"] and e["winner"])}')
